@@ -94,6 +94,33 @@ func (p c06) Gen(r *simhook.Rand, tier string, idx int) harness.Scenario {
 		}
 		ts.Conns = append(ts.Conns, c)
 	}
+	if r.Chance(1, 3) {
+		// class "health": an advanced-TCP health checker probes the backends; one backend fails its probes for a
+		// while and recovers, and is removed from the service at the moment the monitor is about to mark it
+		ts.Class = "e2e-health"
+		ts.Env.BackupFrom = 0
+		ts.Env.InitHosts = nil
+		fall, rise := 1+r.Intn(2), 1+r.Intn(2)
+		ts.Env.HC = &world.HCCfg{IntervalMs: 1000, TimeoutMs: 200, Fall: fall, Rise: rise}
+		h := r.Intn(nb)
+		down := 300 + r.Intn(1500)
+		up := down + (fall+2+r.Intn(3))*1000
+		ts.Faults = append(ts.Faults, TCPFault{Kind: "probe-fail", Node: h, AtMs: down})
+		ts.Faults = append(ts.Faults, TCPFault{Kind: "probe-ok", Node: h, AtMs: up})
+		switch r.Intn(3) {
+		case 0:
+			ts.Faults = append(ts.Faults, TCPFault{Kind: "host-remove", Node: h, AtMs: up, Site: "MarkHostHealthy#"})
+		case 1:
+			ts.Faults = append(ts.Faults, TCPFault{Kind: "host-remove", Node: h, AtMs: down, Site: "MarkHostUnhealthy#"})
+		default:
+			ts.Faults = append(ts.Faults, TCPFault{Kind: "host-remove", Node: h, AtMs: up + r.Intn(4000)})
+		}
+		for i := range ts.Conns {
+			ts.Conns[i].After = 0
+			ts.Conns[i].AfterMs = r.Intn(up + 8000)
+		}
+		return &C06Scenario{Kind: "e2e", T: ts}
+	}
 	nf := r.Intn(5)
 	for i := 0; i < nf; i++ {
 		f := TCPFault{After: r.Intn(200)}
@@ -295,6 +322,15 @@ func (p c06) runE2E(t *testing.T, sc *C06Scenario) harness.Outcome {
 		for _, m := range sets {
 			if usable(m, ts.Env.BackupFrom)[bi] {
 				ok = true
+			}
+		}
+		if ts.Env.HC != nil {
+			// considered healthy: a backend whose probes have been failing for far longer than the fall threshold needs
+			if since, down := w.probeDownSince[bi]; down && len(w.members) > 1 {
+				need := time.Duration((ts.Env.HC.Fall+3)*ts.Env.HC.IntervalMs+ts.Env.HC.TimeoutMs) * time.Millisecond
+				if cl.connectedAt.Sub(since) > need {
+					return &simrt.Violation{Clause: "relayed-to-healthy-host", Detail: fmt.Sprintf("connection %s was relayed to backend %d whose health probes had been failing for %v (fall threshold %d, interval %dms) while other members were available", cl.name, bi, cl.connectedAt.Sub(since), ts.Env.HC.Fall, ts.Env.HC.IntervalMs)}
+				}
 			}
 		}
 		if !ok {
